@@ -176,6 +176,14 @@ def main(argv=None):
         if m["evaluations"] == 0:
             m["inconclusive"].append("no case was executed")
 
+    # ---- reach: the public entry points the property is anchored in must have been entered (evidence of a non-vacuous run) ----
+    req_reach = getattr(mod, "REQUIRED_REACH", [])
+    if req_reach and m["extra"].get("reach_functions_entered", {}).get("count", 0) > 0 and a.replay is None:
+        seen = m["extra"].get("reach_calls", {})
+        miss = [r for r in req_reach if r not in seen]
+        m["extra"]["required_entry_points_reached"] = {"required": len(req_reach), "reached": len(req_reach) - len(miss)}
+        if miss:
+            m["inconclusive"].append("anchored entry points never entered by the first shard's workload: %s" % ", ".join(miss))
     # ---- classify violations against the committed known-findings file ----
     known, _fixed = load_known()
     known_keys = {(k["property"], k["key"]): k for k in known}
